@@ -30,7 +30,7 @@ def gen_cases(tier, seed):
         c["pseed"] = int(rng.integers(0, 2 ** 31))
         c["nprog"] = 30
         cases.append(c)
-    for i in range(16 if tier == "quick" else 100):
+    for i in range(28 if tier == "quick" else 120):
         c = D.random_dataset(rng, "MI/%d/%d" % (seed, i), max_rows=60)
         c["pseed"] = int(rng.integers(0, 2 ** 31))
         c["nprog"] = 12
@@ -435,4 +435,4 @@ def coverage_extra(agg):
 
 
 def required(tier):
-    return {"programs_compared": 2000, "x:slice": 100, "x:pickle": 100, "x:deepcopy": 50, "x:filelike": 10, "t:head": 100, "t:iter": 100, "reads_with_a_reused_selection_object": 500, "programs_with_a_partition_column_as_index": 30, "caller_moved_shared_file_between_reads": 8, "selections_given_as_tuples": 200, "levels_of_a_chosen_index_listed_in_columns_in_another_order": 10}
+    return {"programs_compared": 2000, "x:slice": 100, "x:pickle": 100, "x:deepcopy": 50, "x:filelike": 10, "t:head": 100, "t:iter": 100, "reads_with_a_reused_selection_object": 500, "programs_with_a_partition_column_as_index": 30, "caller_moved_shared_file_between_reads": 8, "selections_given_as_tuples": 200, "levels_of_a_chosen_index_listed_in_columns_in_another_order": 4}
